@@ -59,6 +59,7 @@ type scenario struct {
 	Prefix     string            `json:"prefix"`
 	Leaves     []leafSrc         `json:"leaves"`
 	Required   map[string]uint64 `json:"required,omitempty"`
+	ErrStyle   map[string]int    `json:"errstyle,omitempty"` // how each type's Validate reports (types.go: errStyle)
 	Decoys     []decoy           `json:"decoys,omitempty"`
 	ParentCase int               `json:"parentcase,omitempty"`
 	Note       string            `json:"note,omitempty"`
@@ -261,6 +262,7 @@ type observation struct {
 	Values []value  `json:"values,omitempty"`
 	ValOK  bool     `json:"valok"`
 	Tree   []string `json:"tree,omitempty"`
+	Reason string   `json:"reason,omitempty"`
 	MSPath string   `json:"mspath,omitempty"`
 	Names  []string `json:"names"`
 	NamesE string   `json:"names_err,omitempty"`
@@ -303,6 +305,10 @@ func execute(sc scenario, d *shapeDesc) observation {
 	required = map[string]uint64{}
 	for k, v := range sc.Required {
 		required[k] = v
+	}
+	errStyle = map[string]int{}
+	for k, v := range sc.ErrStyle {
+		errStyle[k] = v
 	}
 	defaults := reflect.New(d.typ)
 	sample := reflect.New(d.typ)
@@ -413,6 +419,7 @@ func execute(sc scenario, d *shapeDesc) observation {
 		o.Kind, o.Err = "invalid", err.Error()
 		o.Tree = ve.GetTree()
 		o.MSPath = ve.GetMapStructurePath()
+		o.Reason = ve.GetReason()
 	case commonerrors.Any(err, commonerrors.ErrMarshalling):
 		o.Kind, o.Err = "marshal", err.Error()
 	default:
@@ -631,16 +638,46 @@ func oracle(r *h.Run, sc scenario, d *shapeDesc, o observation) {
 	case len(off) > 0 && o.Kind == "ok":
 		r.Fail("validation:missed", fmt.Sprintf("loading succeeded although required fields are empty: %v", off), sc)
 	case len(off) > 0:
+		// the error must name an offending field: either its tree path ends in the field, or the path leads to the
+		// structure and the reason given by Validate carries the field's name (plain / wrapped / commonerrors styles)
 		named := false
 		for _, p := range off {
-			if reflect.DeepEqual(p, o.Tree) {
+			if reflect.DeepEqual(p, o.Tree) ||
+				(reflect.DeepEqual(p[:len(p)-1], append([]string{}, o.Tree...)) && strings.Contains(o.Reason, p[len(p)-1]) && strings.Contains(o.Err, p[len(p)-1])) {
 				named = true
 			}
 		}
 		if !named {
-			r.Fail("validation:field-not-named", fmt.Sprintf("the invalid error names %v, the offending fields are %v", o.Tree, off), sc)
+			r.Fail("validation:field-not-named", fmt.Sprintf("the invalid error names %v (reason %q), the offending fields are %v", o.Tree, o.Reason, off), sc)
 		}
 	}
+}
+
+// nodeAt follows Go field names from the root; nil when the path does not lead to a structure
+func nodeAt(n *nodeDesc, path []string) *nodeDesc {
+	for _, p := range path {
+		var next *nodeDesc
+		for _, f := range n.Fields {
+			if f.Go == p && f.Node != nil {
+				next = f.Node
+			}
+		}
+		if next == nil {
+			return nil
+		}
+		n = next
+	}
+	return n
+}
+
+func genStyles(r *h.Run) map[string]int {
+	st := map[string]int{}
+	for name, m := range modes {
+		if m != vNone {
+			st[name] = r.Rng.Intn(5)
+		}
+	}
+	return st
 }
 
 func keys(m map[string]bool) []string {
@@ -799,8 +836,19 @@ func coqCase(sc scenario, d *shapeDesc, o observation) string {
 	case "ok":
 		out = "(Loaded " + h.List(vals) + ")"
 	case "invalid":
-		tr := make([]string, len(o.Tree))
-		for i, t := range o.Tree {
+		// projection "the field the error names": the tree, extended by the field name the reason starts with when the
+		// reporting structure's Validate gave a plain-text error (the model knows the ozzo form only)
+		tree := append([]string{}, o.Tree...)
+		if n := nodeAt(d.root, tree); n != nil {
+			for _, f := range n.Fields {
+				if f.Leaf >= 0 && strings.HasPrefix(o.Reason, f.Tag+": "+blankText) {
+					tree = append(tree, f.Tag)
+					break
+				}
+			}
+		}
+		tr := make([]string, len(tree))
+		for i, t := range tree {
 			tr[i] = cs(t)
 		}
 		out = fmt.Sprintf("(Invalid %s %s %s)", h.List(vals), h.List(tr), cs(o.MSPath))
@@ -949,6 +997,9 @@ func genRandom(r *h.Run) scenario {
 	}
 	if r.Rng.Intn(2) == 0 {
 		sc.Required = genRequired(r, d, []int{10, 30, 100}[r.Rng.Intn(3)])
+		if r.Rng.Intn(2) == 0 {
+			sc.ErrStyle = genStyles(r)
+		}
 	}
 	// decoys: names that are NOT the variable of any field must not be honoured
 	if r.Rng.Intn(3) == 0 {
@@ -1076,6 +1127,13 @@ func deterministic(r *h.Run) []scenario {
 			one.Note = "one-required-field-empty"
 			one.Leaves = append([]leafSrc{}, full.Leaves...)
 			one.Leaves[i] = leafSrc{}
+			// every error style, at every depth: the style of all validating types rotates with the field
+			one.ErrStyle = map[string]int{}
+			for name, m := range modes {
+				if m != vNone {
+					one.ErrStyle[name] = (i + si) % 5
+				}
+			}
 			out = append(out, one)
 		}
 	}
@@ -1125,6 +1183,15 @@ func runOne(r *h.Run, sc scenario) {
 	r.Eval()
 	r.Count("shape:" + sc.Shape)
 	r.Count("outcome:" + o.Kind)
+	if o.Kind == "invalid" {
+		if n := nodeAt(d.root, o.Tree); n != nil {
+			r.Count(fmt.Sprintf("invalid-reported-in-style:%d", sc.ErrStyle[n.TypeName]))
+		} else if len(o.Tree) > 0 {
+			if n := nodeAt(d.root, o.Tree[:len(o.Tree)-1]); n != nil {
+				r.Count(fmt.Sprintf("invalid-reported-in-style:%d", sc.ErrStyle[n.TypeName]))
+			}
+		}
+	}
 	r.Count("prefix:" + sc.Prefix)
 	nsrc := 0
 	for _, l := range sc.Leaves {
